@@ -61,7 +61,7 @@ def run(ctx):
     fams = {}
     for n in fns:
         m = re.match(r'^parse_([a-z]+?)(_str|_pp)?$', n)
-        if m:
+        if m and fns[n].get('vis') == 'pub':         # the families are the PUBLIC entry points; a private helper may be called parse_anything
             fams.setdefault(m.group(1), {})[m.group(2) or ''] = fns[n]
     w1.floor('families', len(fams), 2)
     names = sorted(fams)
@@ -162,6 +162,11 @@ def run(ctx):
                                 '%s passes `allow_incomplete` to %s as its parameter `%s`: the mode flag then changes something else than the grammar entry, so the two modes differ '
                                 'in more than the entry (C15: where strict mode accepts, both modes must return the same tree)' % (n_, cal, cp[idx] if idx < len(cp) else '?'))
                     continue
+            if parent is not None and parent.get('k') == 'call' and slot == 'args' and sx.is_path(parent['f']) and parent['f']['p'] in pnames:
+                # handed to a function VALUE the wrapper received (`parse_pp: impl Fn(..)`): what that callee does with it is decided at the callers
+                w2.undecided('%s:%s:mode-flag-to-fn-parameter' % (API, n_), '%s/%s:%s' % (API, FILE, node.get('l') or f_['l']),
+                             '%s passes `allow_incomplete` to its function parameter `%s`' % (n_, parent['f']['p']))
+                continue
             if parent is not None and parent.get('k') == 'if' and slot == 'c':
                 ok = True
             if parent is not None and parent.get('k') == 'unary' and parent.get('op') == '!':
